@@ -89,7 +89,7 @@ def _field(mesh, arr, rng=None):
         kw["dtype"] = gen.pick(rng, [int, np.int64, np.int32])
     elif rng is not None and arr.dtype.kind == "f" and rng.random() < 0.2:
         kw["dtype"] = np.float64
-    return df.Field(mesh, nvdim=nvdim, value=arr.copy(), **kw)
+    return gen.via_history(None, df.Field(mesh, nvdim=nvdim, value=arr.copy(), **kw))
 
 
 def _res(spec, axes):
